@@ -297,7 +297,7 @@ FIELDS = {
 }
 SUFFIX = {'instance': 'instance', 'parametric_instance': 'parametric-instance', 'solution': 'solution', 'sample_set': 'sample-set'}
 STRINGS = ['T', '', 'a title, with comma: ünï', ' ']
-AUTHORS = [['A. Author', 'b'], ['solo'], [''], []]
+AUTHORS = [['A. Author', 'b'], ['solo'], [''], [], [' padded', 'trailing ', ' ']]   # comma-free names; surrounding blanks are part of a name
 
 
 def annotations_harness(a, kind):
